@@ -15,7 +15,6 @@ impl<T> Default for Vec<T> { fn default() -> Vec<T> { Vec::new() } }
 impl<T> core::iter::FromIterator<T> for Vec<T> { fn from_iter<I: IntoIterator<Item = T>>(it: I) -> Vec<T> { let mut v = Vec::new(); for x in it { v.push(x); } v } }
 impl<'a, T> IntoIterator for &'a Vec<T> { type Item = &'a T; type IntoIter = core::iter::Map<core::slice::Iter<'a, Option<T>>, fn(&'a Option<T>) -> &'a T>;
     fn into_iter(self) -> Self::IntoIter { fn un<'b, U>(o: &'b Option<U>) -> &'b U { o.as_ref().unwrap() } self.items[..self.n].iter().map(un as fn(&'a Option<T>) -> &'a T) } }
-macro_rules! vec { () => { Vec::new() }; }
 pub struct BTreeMap<K, V> { pub items: [Option<(K, V)>; CAP], pub n: usize }
 pub struct Entry<'a, K, V> { pub map: &'a mut BTreeMap<K, V>, pub key: K }
 impl<K: Ord, V> BTreeMap<K, V> {
